@@ -1,7 +1,8 @@
 (* C06, code half - snippet for Properties_C06.v (contributed by the `syntax` area; proofs in Syntax/CodeRoundtrip.v) *)
 From Coq Require Import ZArith List Bool Arith.
 Import ListNotations.
-From SqfVerif Require Import Syntax.SyntaxDefs Syntax.LexProofs Syntax.CodeRoundtrip.
+From SqfVerif Require Import Syntax.SyntaxDefs Syntax.LexProofs Syntax.CodeRoundtrip Syntax.ParsePrintGen Syntax.PrettyRoundtrip Syntax.PrettySpelling.
+From SqfVerif Require Num.NumDefs.
 
 (* str of code: for every registry and every well-formed block ss with compiled code c = postorder_block ss,
    the model of `str` (instruction::reconstruct + d_code::to_string_sqf) returns a text; if every token of that
@@ -27,3 +28,80 @@ Theorem C06_pretty_roundtrip_refuted :
     c <> c'.
 Proof. exact pretty_roundtrip_refuted. Qed.
 Print Assumptions C06_pretty_roundtrip_refuted.
+
+(* the CLI pretty printer as repaired (sqf_formatter.cpp after 382ec7b, model SyntaxDefs.pretty_program): for EVERY
+   registry and every well-formed program ss as the parser returns it (no Par nodes: the parser drops source
+   parentheses, parser.y:299), if every token of the printed text is spelled so that it reads as itself (the
+   formatter writes the tokens of the source, operator names in lower case and `$ff` as `0xff`), then for all
+   sufficiently large fuel the printed text - line breaks, indentation, `{}` / `{ a; b; }` blocks and the
+   parentheses the formatter emits - is parsed to the program itself up to that respelling (pnorm: names of unary
+   and binary operators lowered, hexnorm on literals), and that program compiles to the instruction sequence of ss
+   with every `$` hex literal spelled `0x`.  Proof: the tokens of the printed text are the documented reading
+   (ParsePrintGen.prg, layout per block) of a tree that carries a Par node where the formatter writes
+   parentheses the reading does not need (`if (x)`, `! (x)`); the parentheses it writes around binary operands
+   are exactly the minimal ones; then parse o print = id. *)
+Theorem C06_pretty_roundtrip : forall (R:registry) (d:defects) (ss:list stmt),
+  wf_block R ss -> forallb noparb_stmt ss = true -> toks_ok (pretty_program ss) ->
+  exists f0, forall f, (f0 <= f)%nat ->
+    parse_text d R f (pieces_text (pretty_program ss)) = FOk (map pnorm_stmt ss) /\
+    exists c, compile_block ss = Some c /\ compile_block (map pnorm_stmt ss) = Some (map (mapl_i hexnorm) c).
+Proof. exact pretty_roundtrip. Qed.
+Print Assumptions C06_pretty_roundtrip.
+
+(* the same with the spelling hypothesis on the INPUT: every token of the program reads as itself (spelled_block: each
+   operator name, variable name and literal of ss, lexed on its own, is that token - what holds for a tree that came
+   out of the parser).  The formatter lowers the names of unary and binary operators and respells `$` literals; a
+   token that reads as itself still does afterwards (PrettySpelling.tok_ok_name_lower, tok_ok_hexnorm). *)
+Theorem C06_pretty_roundtrip_spelled : forall (R:registry) (d:defects) (ss:list stmt),
+  wf_block R ss -> forallb noparb_stmt ss = true -> spelled_block ss ->
+  exists f0, forall f, (f0 <= f)%nat ->
+    parse_text d R f (pieces_text (pretty_program ss)) = FOk (map pnorm_stmt ss) /\
+    exists c, compile_block ss = Some c /\ compile_block (map pnorm_stmt ss) = Some (map (mapl_i hexnorm) c).
+Proof. exact pretty_roundtrip_spelled. Qed.
+Print Assumptions C06_pretty_roundtrip_spelled.
+
+(* the statement of the property: a program without `$` literals compiles to the very same instruction sequence
+   after pretty printing *)
+Theorem C06_pretty_roundtrip_same : forall (R:registry) (d:defects) (ss:list stmt),
+  wf_block R ss -> forallb noparb_stmt ss = true -> toks_ok (pretty_program ss) ->
+  forallb nodollar_i (postorder_block ss) = true ->
+  exists f0, forall f, (f0 <= f)%nat ->
+    exists ss', parse_text d R f (pieces_text (pretty_program ss)) = FOk ss' /\ compile_block ss' = compile_block ss.
+Proof. exact pretty_roundtrip_same. Qed.
+Print Assumptions C06_pretty_roundtrip_same.
+
+(* ... and with `$` literals the two sequences differ in the spelling of those literals only, which denote the same
+   number: the literal conversion of the number half (NumDefs.lit_hex, sqf_parser.cpp:98-120) reads `0x..` as it
+   reads `$..` *)
+Theorem C06_pretty_hex_respelling : forall l,
+  match l, hexnorm l with
+  | LHex s, LHex s' => NumDefs.lit_hex s' = NumDefs.lit_hex s
+  | _, l' => l' = l
+  end.
+Proof. exact hexnorm_value. Qed.
+Print Assumptions C06_pretty_hex_respelling.
+
+(* what the proof rests on, C01.2 with the separator layout chosen per statement list (`layf ss`) instead of once:
+   every such rendering of a well-formed program is parsed back to the program (Par nodes erased).  The theorem
+   of C01 is the instance `layf = fun _ => lay` (ParsePrintGen.parse_print_block_of_gen). *)
+Theorem C06_parse_print_layout_per_block : forall (R:registry) (d:defects) (layf:list stmt -> layout) (ss:list stmt),
+  wf_block R ss ->
+  exists f0, forall f, (f0 <= f)%nat -> parse_toks d f (printg_toks R layf ss) = POk (map strip_stmt ss).
+Proof. exact parse_printg_block. Qed.
+Print Assumptions C06_parse_print_layout_per_block.
+
+(* non-vacuity: a program with both operator classes, forced and minimal parentheses, nested and empty blocks, an
+   array, a folded sign, an upper-case name and a `$` literal meets the hypotheses, and the conclusion computes *)
+Example C06_pretty_hypotheses_satisfiable :
+  ex_prog <> [] /\ wf_block ex_R ex_prog /\ forallb noparb_stmt ex_prog = true /\ toks_ok (pretty_program ex_prog).
+Proof. exact ex_hyps. Qed.
+Example C06_pretty_input_spelled : spelled_block ex_prog.
+Proof.
+  unfold spelled_block, ex_prog. intros s [<-|[<-|[]]]; cbn [spelled_stmt spelled fold_right]; repeat split; vm_compute; reflexivity.
+Qed.
+Example C06_pretty_roundtrip_computed :
+  parse_text as_is ex_R 200 ex_src = FOk ex_prog /\
+  parse_text as_is ex_R 200 (pieces_text (pretty_program ex_prog)) = FOk (map pnorm_stmt ex_prog) /\
+  compile_block (map pnorm_stmt ex_prog) = option_map (map (mapl_i hexnorm)) (compile_block ex_prog) /\
+  compile_block ex_prog <> None.
+Proof. vm_compute. repeat split; discriminate. Qed.
